@@ -456,7 +456,7 @@ def run(repo, rep):
                   'ordering of user keys is attempted under except TypeError',
                   '_AlwaysSortable.__lt__ compares user keys outside try/except TypeError: same-type unorderable keys (complex, '
                   'mixed tuples) make the dict printer raise and degrade to repr', nontrivial=True)
-    rep.floor('C07.e', n, 20)
+    rep.floor('C07.e', n, 15)
 
     # ---------------------------------------------------------------- C07.f
     n = 0
